@@ -23,3 +23,13 @@ func (conn *Conn) VerifRateLimit(chars int, badness time.Duration, lastsent time
 	d := conn.rateLimit(chars)
 	return d, conn.badness, conn.lastsent
 }
+
+// VerifSetFloodState / VerifFloodState give access to the flood-control
+// counters, so that the effect of a whole write() on them can be observed.
+func (conn *Conn) VerifSetFloodState(badness time.Duration, lastsent time.Time) {
+	conn.badness, conn.lastsent = badness, lastsent
+}
+
+func (conn *Conn) VerifFloodState() (time.Duration, time.Time) {
+	return conn.badness, conn.lastsent
+}
